@@ -1,6 +1,8 @@
 package main
 
 import (
+	"regexp"
+	"strings"
 	"fmt"
 	"math/rand"
 
@@ -35,7 +37,7 @@ func omnibus(run *Run, o Omni, visit Visit) {
 		if bi%5 == 1 {
 			opts.Gen.MaxDepth = 3
 		}
-		opts.Gen.DynFocus = bi%9 == 5
+		opts.Gen.DynFocus = bi%7 == 4
 		scs := genScenarios(r, opts)
 		if bi%2 == 0 {
 			// a Terraform-like configuration whose references resolve (multi-byte identifiers included)
@@ -45,6 +47,13 @@ func omnibus(run *Run, o Omni, visit Visit) {
 				w := newWorld()
 				pd := w.AddPath("root", tfSchema(), map[string]string{"main.tf": h}, genFunctions(r))
 				scs = append(scs, &Scenario{W: w, Main: pd, File: "main.tf", Src: []byte(h), Kind: "tf-history"})
+			}
+			// typing states: a reference cut after its first dot (the parser's syntax-error expression), with the
+			// cursor right behind the equals sign, in front of the value and at its end
+			for _, inc := range incompleteReferences(r, cfg.Src, 2) {
+				w := newWorld()
+				pd := w.AddPath("root", tfSchema(), map[string]string{"main.tf": inc.src}, genFunctions(r))
+				scs = append(scs, &Scenario{W: w, Main: pd, File: "main.tf", Src: []byte(inc.src), Kind: "tf-incomplete-reference", Offsets: inc.offsets})
 			}
 		}
 		scs = append(scs, blockAddrScenario(r))
@@ -77,7 +86,7 @@ func omnibus(run *Run, o Omni, visit Visit) {
 				}
 			}
 			tbl := lcTable(s.Src)
-			for _, off := range cursorOffsets(r, s.Src, o.AllPos, o.PosSample) {
+			for _, off := range append(cursorOffsets(r, s.Src, o.AllPos, o.PosSample), s.Offsets...) {
 				pos, ok := tbl[off]
 				if !ok {
 					continue // inside a grapheme cluster: not a position an editor can send
@@ -111,3 +120,33 @@ func nonTrivial(v interface{}) bool {
 }
 
 var _ = hcl.InitialPos
+
+type incompleteRef struct {
+	src     string
+	offsets []int
+}
+
+var refValueRe = regexp.MustCompile(`(?m)=( +)((?:var|local|res)\.)[^\n]*$`)
+
+// incompleteReferences: copies of the configuration in which one attribute value that starts with a
+// reference is cut down to the root name and its dot ("var."), sometimes with more blanks after "="
+func incompleteReferences(r *rand.Rand, src string, max int) []incompleteRef {
+	ms := refValueRe.FindAllStringSubmatchIndex(src, -1)
+	r.Shuffle(len(ms), func(i, j int) { ms[i], ms[j] = ms[j], ms[i] })
+	var out []incompleteRef
+	for _, m := range ms {
+		if len(out) >= max {
+			break
+		}
+		eq, root0, root1 := m[0], m[4], m[5]
+		blanks := strings.Repeat(" ", 1+r.Intn(3))
+		val := src[root0:root1]
+		if r.Intn(4) == 0 {
+			val = pick(r, []string{"provider::", "provider::a::", "var.alpha."})
+		}
+		s := src[:eq+1] + blanks + val + src[m[1]:]
+		v0 := eq + 1 + len(blanks)
+		out = append(out, incompleteRef{src: s, offsets: []int{eq + 1, eq + 2, v0, v0 + 1, v0 + len(val)}})
+	}
+	return out
+}
